@@ -5,7 +5,7 @@ from gvsim import model as M
 from gvsim import views as V
 from gvsim.kernel import stream
 from gvsim.lib import COLORS, HEADINGS, mk_state, sha, world_of, wkey
-from gvsim.sim import Client, Raised, Sim, sut
+from gvsim.sim import Client, Raised, Sim, inject_rng, sut
 
 PROP = 'C05'
 TIERS = {'quick': {'runs': 2400, 'wall': 100}, 'thorough': {'runs': 60000, 'wall': 1500}}
@@ -93,7 +93,7 @@ def execute(record, ctx):
             w = world_of(state)
             ctx.count('cases')
             if through_env and env is not None:
-                env._rng = V.mk_rng(mode, seed)
+                inject_rng(env, V.mk_rng(mode, seed))
                 o = sut(env.functional_observation, state)
                 site = name + '_via_gridworld'
             else:
